@@ -95,6 +95,7 @@ impl Planner {
                 steer_min_beyond: false,
                 rec_states: false,
                 deep: false,
+                want_inv: false,
             },
             rng,
         )
@@ -165,7 +166,7 @@ impl Planner {
     }
 
     /// C17 exploration stage.
-    pub fn c17_stage_b(&mut self, corpus: &Corpus, census_g: &[Census], kplus: &[bool], cover_counts: &CoverCounts) -> Vec<Spec> {
+    pub fn c17_stage_b(&mut self, corpus: &Corpus, census_g: &[Census], kplus: &[bool], cover_counts: &CoverCounts, sweep: &CoverCounts) -> Vec<Spec> {
         let thorough = self.tier == Tier::Thorough;
         let mut specs = vec![];
         // B1: every generated symbol: renumbered, and dual + renumbered
@@ -205,6 +206,7 @@ impl Planner {
                 s.repr = Self::c17_repr(&mut rng);
                 s.known_euclidean = kplus[gi];
                 s.deep = r == 0 || (thorough && r % 50 == 0);
+                s.want_inv = r == 0;
                 self.perturb(&mut s, &mut rng, true);
                 specs.push(s);
             }
@@ -218,6 +220,7 @@ impl Planner {
                 s.repr = Self::c17_repr(&mut rng);
                 s.known_euclidean = true;
                 s.deep = r < 2 || (thorough && r % 50 == 0);
+                s.want_inv = r < 2;
                 self.perturb(&mut s, &mut rng, true);
                 specs.push(s);
             }
@@ -267,6 +270,39 @@ impl Planner {
                     s.repr = Self::c17_repr(&mut rng);
                     s.known_euclidean = cc.known_euclidean;
                     s.deep = r == 0 && cc.known_euclidean;
+                    s.want_inv = r == 0;
+                    self.perturb(&mut s, &mut rng, true);
+                    specs.push(s);
+                }
+            }
+        }
+        // B7: space-group sweep: every cover with up to 24 (thorough: 48) sheets of
+        // the cubic tiling and up to 16 (24) sheets of the hexagonal prism tiling
+        // is a known-euclidean symbol; together they exercise most entries of
+        // the invariant table, all point groups of the cover construction and
+        // tori of many shapes
+        for cc in sweep.list.iter() {
+            let reps = if thorough { 3 } else { 1 };
+            for j in 0..cc.count {
+                if cc.sheets[j] < 2 {
+                    continue;
+                }
+                for r in 0..reps {
+                    let group = format!("{}/c{}.{}", cc.id, cc.k, j);
+                    let (mut s, mut rng) = self.base_spec(&group, &cc.text, Op::IsEuclidean);
+                    s.parent = Some(cc.id.clone());
+                    s.xf.push(Xf::Cover { k: cc.k, j });
+                    if r == 1 {
+                        s.xf.push(Xf::Shuffle(rng.next_u64()));
+                    }
+                    if r == 2 {
+                        s.xf.push(Xf::Dual);
+                        s.xf.push(Xf::Shuffle(rng.next_u64()));
+                    }
+                    s.repr = Self::c17_repr(&mut rng);
+                    s.known_euclidean = true;
+                    s.want_inv = r == 0;
+                    s.deep = r == 0 && j % 16 == 0;
                     self.perturb(&mut s, &mut rng, true);
                     specs.push(s);
                 }
@@ -334,7 +370,7 @@ impl Planner {
     }
 
     /// C16 exploration stage.
-    pub fn c16_stage_b(&mut self, corpus: &Corpus, census_g: &[Census], kplus: &[bool], cover_counts: &CoverCounts) -> Vec<Spec> {
+    pub fn c16_stage_b(&mut self, corpus: &Corpus, census_g: &[Census], kplus: &[bool], cover_counts: &CoverCounts, sweep: &CoverCounts) -> Vec<Spec> {
         let thorough = self.tier == Tier::Thorough;
         let mut specs = vec![];
         // B1: known-euclidean literals and their duals
@@ -467,8 +503,10 @@ impl Planner {
                 }
             }
         }
-        // B5: pseudo-toroidal covers of verified small covers of the corpus
-        for cc in cover_counts.list.iter() {
+        // B5: pseudo-toroidal covers of verified small covers of the corpus,
+        // and of the space-group sweep (covers of the cubic / hexagonal prism
+        // tilings with many sheets)
+        for (is_sweep, cc) in cover_counts.list.iter().map(|c| (false, c)).chain(sweep.list.iter().map(|c| (true, c))) {
             if !cc.known_euclidean {
                 continue;
             }
@@ -478,7 +516,12 @@ impl Planner {
                 }
                 let group = format!("{}/c{}.{}", cc.id, cc.k, j);
                 let pre = vec![Xf::Cover { k: cc.k, j }];
-                let (cs, keys) = if thorough { (60, 2) } else { (3, 1) };
+                let (cs, keys) = match (thorough, is_sweep) {
+                    (false, false) => (3, 1),
+                    (true, false) => (60, 2),
+                    (false, true) => (1, 1),
+                    (true, true) => (4, 1),
+                };
                 self.c16_block(&mut specs, &group, &cc.text, &pre, 1, cs, keys, Expect::Torus, true);
             }
         }
@@ -576,4 +619,21 @@ pub fn kplus(corpus: &Corpus) -> (Vec<bool>, usize) {
         })
         .collect();
     (flags, instrument_failures)
+}
+
+pub const CUBE: &str = "<1.1:1 3:1,1,1,1:4,3,4>";
+pub const HEX_PRISM: &str = "<1.1:2 3:2,1 2,1 2,2:6,3 2,6>";
+
+/// The space-group sweep: covers of the two maximal-symmetry literals.
+pub fn sweep_counts(corpus: &Corpus, tier: Tier) -> CoverCounts {
+    let (kc, kh) = if tier == Tier::Thorough { (48, 24) } else { (24, 16) };
+    let mut entries: Vec<(&Entry, bool, usize)> = vec![];
+    for e in corpus.k0.iter() {
+        if e.text == CUBE {
+            entries.push((e, true, kc));
+        } else if e.text == HEX_PRISM {
+            entries.push((e, true, kh));
+        }
+    }
+    CoverCounts::compute(&entries)
 }
